@@ -22,8 +22,6 @@ Map2(A, B, G(_, _)) ==
 Map3(A, B, D, G(_, _, _)) ==
   [j \in 1..(Len(A) * Len(B) * Len(D)) |->
      G(A[((j - 1) \div (Len(B) * Len(D))) + 1], B[(((j - 1) \div Len(D)) % Len(B)) + 1], D[((j - 1) % Len(D)) + 1])]
-\* (no RECURSIVE operator below this line up to Items/Frags: TLC evaluates a constant definition once
-\* and for all only if no recursive operator occurs in it - otherwise once per state)
 
 \* ---- (A) trees ------------------------------------------------------------------------------------
 DollarA == S(<<36, 97>>)                  \* the text  $a
@@ -40,7 +38,8 @@ Cond3(A, B, D) == LET g(c, t, e) == <<"Cond", c, t, e>> IN Map3(A, B, D, g)
 S1 == WideLeaves
 S2 == Un(S1)
 S3 == Un(S2) \o Bi(S1, S1)
-S4 == Un(S3) \o Bi(S1, S2) \o Bi(S2, S1) \o Cond3(S1, S1, S1)
+\* (built only when asked for: a named constant definition would be evaluated at start-up in any case)
+S4(dummy) == Un(S3) \o Bi(S1, S2) \o Bi(S2, S1) \o Cond3(S1, S1, S1)
 
 CondTests == <<RecA, <<"Lt", RecA, C(1)>>, <<"Eq", RecB, C(0)>>, DollarA, <<"Div", C(1), RecA>>>>
 Conds == Cond3(CondTests, NarrowLeaves, NarrowLeaves)
@@ -70,14 +69,14 @@ Blocks == <<"ifret", "ifearly", "ifassign", "ifone", "iftab">>
 CondAtEnd(t) == t[1] = "Cond" \/ (t[1] = "Let" /\ t[4][1] = "Cond")
 SpellingsOf(t) ==
   General \o (IF HasStrB(t) \/ HasFmtB(t) THEN <<"fstr">> ELSE <<>>)
-          \o (IF HasStrB(t) THEN <<"triple">> ELSE <<>>)
+          \o (IF HasStrB(t) THEN <<"triple", "ftriple">> ELSE <<>>)
           \o (IF CondAtEnd(t) THEN Blocks ELSE <<>>)
           \o (IF t[1] = "Let" THEN <<"semicolon">> ELSE <<>>)
-AllSpellings == General \o <<"fstr", "triple">> \o Blocks \o <<"semicolon">>
+AllSpellings == General \o <<"fstr", "triple", "ftriple">> \o Blocks \o <<"semicolon">>
 
 Fam(A, fam) == [j \in 1..Len(A) |-> [t |-> A[j], sp |-> SpellingsOf(A[j]), fam |-> fam]]
 Items == Fam(S1 \o S2, "small") \o Fam(Conds, "cond") \o Fam(S3, "mid") \o Fam(Lets, "let")
-         \o (IF MaxNodes >= 4 THEN Fam(S4, "big") ELSE <<>>)
+         \o (IF MaxNodes >= 4 THEN Fam(S4(0), "big") ELSE <<>>)
 N == Len(Items)
 
 Rows == <<<<0, 3>>, <<1, 0>>, <<2, -1>>, <<-3, 2>>>>
@@ -142,11 +141,14 @@ Corrupt(seq, r, v) == [seq EXCEPT ![r] = v]
 Undefs(f) == {r \in 1..Len(f) : Tag(f[r]) = "undef"}
 MinOfSet(A) == CHOOSE x \in A : \A z \in A : x <= z
 
-VARIABLE i
-Init == i \in 1..(IF N < Lanes THEN N ELSE Lanes)
-Next == i + Lanes <= N /\ i' = i + Lanes
-SpecSane ==
-  LET t == Items[i].t
+\* One state per tree (plus the initial one).  Two TLC facts shape this:
+\*  - TLC decides by NAME whether a definition is constant-level (= evaluated once and for all), so the
+\*    variables must not be called like any bound identifier of the modules above;
+\*  - LET-bound values are cached only while an ACTION is evaluated, not in an invariant or in Init, so
+\*    the check of a tree is done by Next and the invariant just reads its verdict.
+VARIABLES lane, sane
+Sane(k) ==
+  LET t == Items[k].t
       in == [tree |-> t, rows |-> Rows, newrow |-> NewRow]
       E == Expect(in, TRUE)
       good == Ref(in, TRUE)
@@ -166,4 +168,9 @@ SpecSane ==
      /\ "C19.loc" \in FClauses(in, [good EXCEPT !.elsewhere = 1])
      /\ "C19.usable" \in FClauses(in, [good EXCEPT !.add_ok = FALSE])
      /\ "C19.usable" \in FClauses(in, [good EXCEPT !.s4.X = Corrupt(@, 1, Err)])
+Init == lane = 0 /\ sane = TRUE
+Next == /\ IF lane = 0 THEN lane' \in 1..(IF N < Lanes THEN N ELSE Lanes)
+                       ELSE lane + Lanes <= N /\ lane' = lane + Lanes
+        /\ sane' = Sane(lane')
+SpecSane == sane
 =============================================================================
